@@ -206,10 +206,67 @@ fn occ_for_peer(r: &RunResult<Vec<bool>>, party: usize, name: &str, k: usize) ->
     cands.iter().find(|(t, _)| *t >= t0).map(|(_, o)| *o).unwrap_or(0)
 }
 
+/// Schema-free form of "no honest party reveals a committed value before it holds every peer's
+/// commitment", for the LaAND check value H (probe `flaand_hi`): the first message of party v to peer
+/// a that contains H_v (byte search) must be issued after v has received some message that a sent
+/// after a had computed its own H_a - otherwise a rushing peer can still choose H_a after reading H_v.
+/// Independent of the message layout (labels and schema are not consulted).
+fn reveal_after_binding(r: &RunResult<Vec<bool>>, n: usize) -> Result<u64, String> {
+    let mut checked = 0u64;
+    let probe = |p: usize, occ: usize| r.probes.iter().find(|x| x.party == p && x.name == "flaand_hi" && x.occ == occ).and_then(|x| match &x.val { ProbeVal::U128s(v) if !v.is_empty() => Some((v[0], x.t)), _ => None });
+    for v in 0..n {
+        for occ in 0..8 {
+            let Some((hv, tv)) = probe(v, occ) else { break };
+            let pats = [hv.to_be_bytes(), hv.to_le_bytes()];
+            for a in (0..n).filter(|a| *a != v) {
+                let Some((_, ta)) = probe(a, occ) else { continue };
+                // first send of v to a, issued after v knew H_v, whose bytes contain H_v
+                let reveal = r.ops.iter().filter(|o| o.party == v && o.peer == a && o.dir == crate::exec::Dir::Send && o.issue_t >= tv).filter(|o| o.msg.is_some_and(|i| { let b = r.msgs[i].orig.as_ref().unwrap_or(&r.msgs[i].bytes); pats.iter().any(|p| b.windows(16).any(|w| w == p)) })).map(|o| o.issue_t).min();
+                let Some(reveal) = reveal else { continue };
+                checked += 1;
+                // a message of a, sent after a knew H_a, that v had received before revealing
+                let bound = r.ops.iter().any(|o| o.party == v && o.peer == a && o.dir == crate::exec::Dir::Recv && o.complete_t.is_some_and(|t| t < reveal) && o.msg.is_some_and(|i| r.msgs[i].t_sent >= ta));
+                if !bound {
+                    return Err(format!("party {v} sent its LaAND check value H (batch {occ}) to party {a} at t={reveal} before it had received anything that party {a} sent after computing its own H (t={ta}): a rushing peer can choose its H after reading the honest one"));
+                }
+            }
+        }
+    }
+    Ok(checked)
+}
+
 pub fn main(tier: Tier, seed: u64) -> i32 {
     let mut rep = Report::new("C04", tier, seed, "fault_enumeration");
     if let Err(e) = super::selftest::determinism(seed) {
         rep.machinery(e);
+        return rep.finish();
+    }
+    // ---------------- (0) layout-independent reveal-after-commit monitor ----------------
+    // runs first: it needs neither labels nor the schema table, so it still decides when a change of
+    // the wire layout makes the schema-bound parts below stop with a machinery error
+    let mut reveal_checked = 0u64;
+    for n in [2usize, 3] {
+        let case = super::c12::cases_for(n, 0);
+        for policy in 0..3u8 {
+            let mut ec = ExecCfg::new(n, tape_seed(seed, 40 + n as u64));
+            ec.record_probes = true;
+            let r = crate::exec::run(&ec, mpc_body(&case, 845), &mut |en, _| match policy { 0 => 0, 1 => en.len() - 1, _ => en.iter().position(|a| matches!(a, crate::exec::Action::Run(_))).unwrap_or(0) }, false);
+            if let Err(e) = check_honest(&case, &r) {
+                rep.machinery(format!("honest run failed: {e}"));
+                continue;
+            }
+            match reveal_after_binding(&r, n) {
+                Ok(k) => reveal_checked += k,
+                Err(e) => rep.violation("reveal_before_commit:laand_check_value", format!("n={n} schedule policy {policy}: {e}"), json!({"kind":"mpc_case","case":case})),
+            }
+        }
+    }
+    rep.set("layout_independent_reveal_obligations", json!(reveal_checked));
+    if reveal_checked == 0 && rep.violations.len() == 0 {
+        rep.machinery("the layout-independent reveal monitor found no obligation (probe flaand_hi missing?)");
+    }
+    if rep.violations.len() > 0 {
+        // a verdict that does not depend on the schema-bound parts: report it now
         return rep.finish();
     }
     // ---------------- (a) detection ----------------
